@@ -1,3 +1,4 @@
+import WmModel.Props.C07Prod
 import WmModel.Props.C05Live
 import WmModel.Props.C07Locks
 import WmModel.Props.C07Close
@@ -45,3 +46,6 @@ import WmModel.Props.C07
 #print axioms Wm.GcReg.blocking_deadlock_needs_nested_publish
 #print axioms Wm.GcReg.closing_no_deadlock
 #print axioms Wm.GcReg.d11_has_nested_publish
+#print axioms Wm.GcProd.after_close_channel_closed
+#print axioms Wm.GcProd.close_witness
+#print axioms Wm.GcProd.close_waits_for_msub
